@@ -8,6 +8,7 @@ From Coq Require Import NArith Bool List.
 From RS.Gen Require Import Prelude GenConsts.
 From RS.Model Require Import Field Sched Codec Machine.
 From RS.Proofs Require Import AllocFacts.
+Import ListNotations.
 Local Open Scope N_scope.
 
 (* adding shards, encode/decode, reading and dropping results, into_parts, supports,
@@ -48,6 +49,36 @@ Theorem C17_monotone_dec : forall c e K R sb w x a, dec_make c e K R sb w = inl 
   (a = true <-> dw_cap w < dec_need (rate_of c K R) K R sb \/ dw_bits w < dec_bits (rate_of c K R) K R).
 Proof. exact dec_make_cap. Qed.
 Print Assumptions C17_monotone_dec.
+
+(* histories: once an encoder object holds working space for a configuration, then after ANY
+   further calls that keep the object - rounds, resets (failed or not) to any configurations,
+   decoder traffic, one-shot calls - a reset to any configuration that needs no more than what
+   it held never allocates; and what the object holds never shrinks along the way *)
+Theorem C17_history_enc : forall junk s ops K R sb x x',
+  s_enc s = Some x -> forallb keeps_enc ops = true -> s_enc (steps junk s ops) = Some x' ->
+  enc_need (rate_of (e_codec x') K R) K R sb <= ew_cap (e_work x) ->
+  s_alloc (fst (step junk (steps junk s ops) (EReset K R sb))) = false.
+Proof. exact enc_history_no_alloc. Qed.
+Print Assumptions C17_history_enc.
+
+Theorem C17_history_held : forall junk ops s, forallb keeps_enc ops = true ->
+  enc_obj_cap s <= enc_obj_cap (steps junk s ops) /\ (s_enc s <> None -> s_enc (steps junk s ops) <> None).
+Proof. exact steps_enc_cap_mono. Qed.
+Print Assumptions C17_history_held.
+
+(* [steps] is the state component of the machine's [run] *)
+Theorem C17_steps_is_run : forall junk s ops, fst (run junk s ops) = steps junk s ops.
+Proof. exact run_is_steps. Qed.
+Print Assumptions C17_steps_is_run.
+
+Example C17_history_example :
+  let j := fun _ _ _ : N => 0 in
+  let s1 := fst (step j init (ENew CHigh NoSimd 5 3 128)) in
+  let ops := [EReset 3 2 64; EAdd (repeat 1 64); EReset 0 0 0; Supports CLow 2 2; EReset 2 1 2] in
+  let s2 := steps j s1 ops in
+  (forallb keeps_enc ops, s_alloc (fst (step j s2 (EReset 5 3 128))), s_alloc (fst (step j s2 (EReset 9 3 128))))
+  = (true, false, true).
+Proof. vm_compute. reflexivity. Qed.
 
 Example C17_example :
   let j := fun _ _ _ : N => 0 in
